@@ -32,3 +32,11 @@ Theorem C08_order_holds_when_posting_is_atomic : forall bs f st, NoDup (starts b
   nlookup f (feeds (frun_all (flat_map expand bs))) = Some st -> order_ok_feed st = true.
 Proof. exact order_holds_when_posting_is_atomic. Qed.
 Print Assumptions C08_order_holds_when_posting_is_atomic.
+
+(* the removal of a document by a firing of the expiry timer posts exactly one event, the rendering of the tombstone as stored: the step checker chk_step_expiry applies the row rule of Delete to every document a firing removed, with
+   the events the firing posted for it; it accepts every history of the model (KvExpiry.v: each due document is
+   removed exactly once) and is evaluated on the implementation's traces *)
+From Rosmar Require Import KvExpiry.
+Theorem C08_expiry_is_a_removal : forall c : scase, wf_case c -> chk_expiry_kv chk_row_C08 (c, srun c) = true.
+Proof. exact (expiry_sound chk_row_C08 C08_row_sound). Qed.
+Print Assumptions C08_expiry_is_a_removal.
